@@ -4,11 +4,18 @@
 
    Preconditions made explicit (they are the documented requirements of
    u_create_from_thread / p_create_unit): a user unit handle has bit 0 clear
-   (hence is not ABT_UNIT_NULL = 0x7) and is not the handle of another live
-   unit.  In the statements they are the [tpre]/[apre]/[oracle_ok] checks whose
-   failure ends a run with [Misuse]; [Abort] = an ABTI_ASSERT of unit.c fires
-   ("get() must succeed", "unmap() must succeed") or NULL is dereferenced;
-   [Wrong] = a result differs from the finite-map specification. *)
+   (hence is not ABT_UNIT_NULL = 0x7) and is not the handle of ANOTHER live
+   work unit.  create_unit(pool, th) MAY return the handle th already has:
+   pools whose unit is the work-unit handle itself (unit = (ABT_unit)thread, as
+   in test/basic/pool_user_def.c) do so when a work unit moves directly from one
+   user pool to another (the only place where create_unit is called for a work
+   unit that holds a live user unit); the table then holds that key twice
+   between map(new) and unmap(old) - see C14_same_handle_remap /
+   C14_same_handle_move.  In the statements the preconditions are the
+   [tpre]/[apre]/[oracle_ok] checks whose failure ends a run with [Misuse];
+   [Abort] = an ABTI_ASSERT of unit.c fires ("get() must succeed", "unmap()
+   must succeed") or NULL is dereferenced; [Wrong] = a result differs from the
+   finite-map specification. *)
 From Coq Require Import List ZArith Bool.
 From ABT Require Import DS.UnitMap DS.UnitMapProofs DS.UnitAssocProofs DS.UnitApi DS.UnitApiProofs.
 From ABT Require Import Conc.UnitMapConc Conc.UnitMapConcProofs Conc.UnitMapConcLink.
@@ -55,12 +62,15 @@ Proof. vm_compute. repeat split; reflexivity. Qed.
    ABTI_thread_set_associated_pool, ABTI_unit_set_associated_pool,
    ABTI_thread_unset_associated_pool, ABTI_unit_get_thread), any sequence, any
    mix of built-in and user pools [bi]: no assertion fires, and the call log
-   replays: create_unit never returns a handle that is still live, every
+   replays ([replay], DS/UnitMap.v): create_unit never returns a handle that is
+   still live - except, in a direct move between two user pools, the handle the
+   moved work unit has in the old pool, which is then live in both pools until
+   the old pool's free_unit (or, when the map fails, the new pool's) -, every
    free_unit names a live handle of that very pool (so each handle is freed
    exactly once per creation and never mentioned after its free), and the
    handles live at the end are exactly the units of the work units currently
-   associated with user pools (an association starts with one create_unit and
-   ends with one free_unit). *)
+   associated with user pools, each for exactly one pool (an association starts
+   with one create_unit and ends with one free_unit). *)
 Theorem C14_create_free_balanced : forall bi ops,
   match arun bi init_state ops with
   | Ok (s, rs) =>
@@ -129,6 +139,98 @@ Example C14_assoc_example :
   end.
 Proof. vm_compute. split; reflexivity. Qed.
 
+(* ---- same-handle moves ---- *)
+
+(* Table level, any table [t] representing any relation [R] (colliding buckets,
+   tombstones anywhere): map(u, th) while u is ALREADY mapped to th - what the
+   runtime does first when a work unit moves between two user pools that hand
+   out the same handle - either fails (only when its allocation failed; table
+   unchanged) or succeeds, and then: a lookup of u still yields th while the key
+   is in the bucket twice, the following unmap(u) succeeds (it tombstones the
+   first cell with key u, a reused tombstone, a new head cell or the old cell,
+   whichever comes first) and the table represents R again. *)
+Theorem C14_same_handle_remap : forall t R u th ok t' r,
+  rep t R -> u <> UNIT_NULL -> R u th -> tbl_map t u th ok = (t', r) ->
+  (r = true /\ tbl_get t' u = Some th /\
+   exists t'', tbl_unmap t' u = Some t'' /\ rep t'' R) \/
+  (r = false /\ ok = false /\ t' = t).
+Proof. exact rep_remap_same. Qed.
+Print Assumptions C14_same_handle_remap.
+
+(* Association level, in every state reachable by the association functions:
+   work unit th of a user pool is moved (ABTI_thread_set_associated_pool; by
+   C14_get_thread ABTI_unit_set_associated_pool does the same) to ANOTHER user
+   pool p whose create_unit returns the handle th already has.  The call is
+   within the contract ([apre]: no Misuse), no assertion fires, and either
+   - it succeeds: th keeps its handle, now for pool p; exactly one create_unit
+     (pool p) and one free_unit (old pool) were logged; the handle translates
+     to th; its bucket holds it in exactly one cell (plus tombstones); or
+   - the table could not allocate (ABT_ERR_MEM): table and fields unchanged, p
+     freed the handle at once.
+   The log still replays in both cases (C14_create_free_balanced covers runs
+   containing such moves). *)
+Theorem C14_same_handle_move : forall bi ops s rs th x p ok,
+  arun bi init_state ops = Ok (s, rs) -> zfind (a_thr s) th = Some x ->
+  is_builtin_unit (t_unit x) = false -> bi p = false -> t_pool x <> p ->
+  apre s (ASet th p (t_unit x, ok)) = true /\
+  exists s' c, thread_set_associated_pool bi s th p (t_unit x, ok) = Some (s', c) /\
+    ((c = ABT_SUCCESS /\ a_thr s' = zset (a_thr s) th (mkT (t_unit x) p) /\
+      a_log s' = CFree (t_pool x) (t_unit x) :: CCreate p th (t_unit x) :: a_log s /\
+      unit_get_thread s' (t_unit x) = Some th /\
+      key_count (nth_bucket (a_tbl s') (slot (t_unit x))) (t_unit x) = 1%nat)
+     \/ (c = ABT_ERR_MEM /\ ok = false /\ a_thr s' = a_thr s /\ a_tbl s' = a_tbl s /\
+         a_log s' = CFree p (t_unit x) :: CCreate p th (t_unit x) :: a_log s)).
+Proof.
+  intros bi ops s rs th x p ok E Ef Hb Hbi Hnp.
+  pose proof (arun_Inv bi ops init_state (UnitAssocProofs.Inv_init bi)) as H.
+  rewrite E in H. destruct H as [HI _].
+  destruct (same_handle_move bi s th x p ok HI Ef Hb Hbi Hnp) as [Hpre (s' & c & Es & _ & Hc)].
+  split; [exact Hpre|]. exists s', c. split; [exact Es|exact Hc].
+Qed.
+Print Assumptions C14_same_handle_move.
+
+(* non-vacuity: pools 0 built-in, 1 and 2 user-defined; 296, 2336, 4376 collide
+   (bucket 37).  Work unit 16 gets 296 in pool 1 and moves to pool 2 with the
+   same handle: map prepends a second (296,16) cell, unmap tombstones it (the
+   first match), the old cell stays.  It moves back to pool 1 with a failing
+   malloc: the tombstone is reused, so the move still succeeds.  Work unit 32
+   gets 2336 (reusing the tombstone) and is freed, so that a tombstone precedes
+   the cell of 296 - the situation in which a map that wrongly reused the live
+   cell would go unnoticed -; 16 moves to pool 2 again, is looked up and
+   freed.  One create_unit per association, one free_unit per end. *)
+Example C14_same_handle_move_example :
+  let bi := fun p => p =? 0 in
+  match arun bi init_state
+          [AInit 16 1 (296, true); ASet 16 2 (296, true); AGet 16; AUSet 16 1 (296, false); AGet 16;
+           AInit 32 2 (2336, true); AUnset 32; ASet 16 2 (296, true); AGet 16; AUnset 16] with
+  | Ok (s, rs) =>
+      rs = [ARcode 0; ARcode 0; ARthread 16; ARcode_thread 0 16; ARthread 16;
+            ARcode 0; ARnone; ARcode 0; ARthread 16; ARnone] /\
+      rev (a_log s) = [CCreate 1 16 296; CCreate 2 16 296; CFree 1 296; CCreate 1 16 296; CFree 2 296;
+                       CCreate 2 32 2336; CFree 2 2336; CCreate 2 16 296; CFree 1 296; CFree 2 296] /\
+      nth 37 (a_tbl s) [] = [(UNIT_NULL, 16); (UNIT_NULL, 16)]
+  | _ => False
+  end /\
+  (* the state in the middle of the first move, spelled out *)
+  match arun bi init_state [AInit 16 1 (296, true)] with
+  | Ok (s, _) =>
+      match create_and_map s 2 16 (296, true) with
+      | (s1, Some 296, 0) =>
+          nth 37 (a_tbl s1) [] = [(296, 16); (296, 16)] /\ tbl_get (a_tbl s1) 296 = Some 16 /\
+          match unmap_and_free s1 1 296 with
+          | Some s2 => nth 37 (a_tbl s2) [] = [(UNIT_NULL, 16); (296, 16)] /\ tbl_get (a_tbl s2) 296 = Some 16
+          | None => False
+          end
+      | _ => False
+      end
+  | _ => False
+  end /\
+  (* every other reuse of a live handle is still outside the contract *)
+  arun bi init_state [AInit 16 1 (296, true); AInit 32 1 (296, true)] = Misuse /\
+  arun bi init_state [AInit 16 1 (296, true); AInit 32 2 (2336, true); ASet 32 1 (296, true)] = Misuse /\
+  arun bi init_state [AInit 16 1 (296, true); AInit 32 0 (UNIT_NULL, true); AUSet 32 2 (296, true)] = Misuse.
+Proof. vm_compute. repeat split; reflexivity. Qed.
+
 (* A failed ABTI_thread_init_pool / ABTI_thread_set_associated_pool /
    ABTI_unit_set_associated_pool (create_unit returned ABT_UNIT_NULL:
    ABT_ERR_OTHER; or the table could not allocate: ABT_ERR_MEM, the fresh unit
@@ -171,12 +273,15 @@ Proof. vm_compute. repeat split; reflexivity. Qed.
    a descriptor is created once, ABT_pool_push(_thread) / ABT_self_schedule /
    ABT_xstream_run_unit are applied to a work unit that is not in a pool,
    ABT_thread_set_associated_pool to one that is not in a pool, free / revive to
-   a terminated one, and create_unit returns NULL or a fresh handle with bit 0
-   clear.  Then: no assertion of unit.c fires (code 2 never), and the complete
-   call log - create_unit, free_unit, push and pop of every user pool - replays:
-   each handle is created once per life, freed once by the pool that created it,
-   and never pushed, popped or freed after its free; the handles live at the end
-   are exactly the units of the work units associated with user pools. *)
+   a terminated one, and create_unit returns NULL or a handle with bit 0 clear
+   that no OTHER work unit holds (fresh, or - in a direct move between two user
+   pools - the handle the moved work unit already has).  Then: no assertion of
+   unit.c fires (code 2 never), and the complete call log - create_unit,
+   free_unit, push and pop of every user pool - replays: each handle is created
+   once per association, freed once by the pool that created it, and never
+   pushed, popped or freed after its last free (nor pushed or popped in the
+   middle of a same-handle move); the handles live at the end are exactly the
+   units of the work units associated with user pools. *)
 Theorem C14_api_balanced : forall bi pools ops,
   let '(s, rs, e) := xrun bi (xinit pools) ops in
   e <> Some 2 /\ e <> Some 3 /\
@@ -221,6 +326,31 @@ Example C14_api_example :
   rev (a_log (x_a s)) = [CCreate 1 16 296; CPush 1 296; CPop 1 296; CCreate 2 16 2336; CFree 1 296;
                          CPush 2 2336; CPop 2 2336; CPush 2 2336; CPop 2 2336; CFree 2 2336] /\
   x_runs s = [(16, 1)].
+Proof. vm_compute. repeat split; reflexivity. Qed.
+
+(* non-vacuity with same-handle moves through the public API: pools 1 and 2 are
+   user-defined and both use the handle 296 for work unit 16 ("unit = thread
+   handle").  Created in pool 1, popped, pushed to pool 2 with
+   ABT_pool_push_thread (create_unit of pool 2 returns 296 again: map, unmap,
+   free_unit of pool 1), checked, popped from pool 2, migrated back to pool 1 at
+   its next schedule (same handle again), popped, run to completion, freed.
+   Counts: pool 1 two creates / two frees, pool 2 one create / one free; the
+   work unit ran exactly once; a second work unit that is handed 296 while 16
+   holds it is Misuse (code 1). *)
+Example C14_api_same_handle_example :
+  let bi := fun p => p =? 0 in
+  let '(s, rs, e) := xrun bi (xinit [0; 1; 2])
+      [XCreate 16 1 true [] [(296, true)]; XPop 1 0; XPushThread 2 16 [(296, true)]; XCheck 16;
+       XPop 2 3; XMigrate 16 1; XRun 16 [(296, true)]; XPop 1 0; XCheck 16; XRun 16 []; XFree 16] in
+  e = None /\
+  rs = [XRcode 0; XRpop 16 296; XRcode 0; XRcheck 296 16; XRpop 16 296; XRcode 0; XRrun 0 0;
+        XRpop 16 296; XRcheck 296 16; XRrun 0 2; XRcode 0] /\
+  rev (a_log (x_a s)) = [CCreate 1 16 296; CPush 1 296; CPop 1 296; CCreate 2 16 296; CFree 1 296;
+                         CPush 2 296; CPop 2 296; CCreate 1 16 296; CFree 2 296; CPush 1 296; CPop 1 296;
+                         CFree 1 296] /\
+  x_runs s = [(16, 1)] /\
+  snd (xrun bi (xinit [0; 1; 2])
+         [XCreate 16 1 true [] [(296, true)]; XCreate 32 2 true [] [(296, true)]]) = Some 1.
 Proof. vm_compute. repeat split; reflexivity. Qed.
 
 (* ---- concurrent map / unmap / get (LTS Conc/UnitMapConc.v) ---- *)
